@@ -36,6 +36,23 @@ theorem takeRun_length (t : Str) : (items : List R) → (takeRun t items).2.leng
     · simp [takeRun, h]
   | .tok _ :: _ | .seq _ _ :: _ | .adict _ :: _ | .str _ :: _ | .tree _ _ _ :: _ => by simp [takeRun]
 
+theorem takeLines_spec (k : Str) : (items : List R) →
+    ∃ run, items = run ++ (takeLines k items).2 ∧ RepRun k run (takeLines k items).1
+  | [] => ⟨[], by simp [takeLines], .nil⟩
+  | .adict kvs :: r => by
+    cases hp : attrParts kvs with
+    | error e => exact ⟨[], by simp [takeLines, hp], by simp only [takeLines, hp]; exact .nil⟩
+    | ok x =>
+      obtain ⟨k', v, p⟩ := x
+      by_cases hk : k' = k
+      · subst hk
+        obtain ⟨run, h1, h2⟩ := takeLines_spec k' r
+        refine ⟨.adict kvs :: run, ?_, ?_⟩
+        · simp only [takeLines, hp, if_true, List.cons_append]; rw [← h1]
+        · simp only [takeLines, hp, if_true]; exact .cons kvs v p run _ hp h2
+      · exact ⟨[], by simp [takeLines, hp, hk], by simp only [takeLines, hp, hk, if_false]; exact .nil⟩
+  | .tok _ :: _ | .seq _ _ :: _ | .cdict _ :: _ | .str _ :: _ | .tree _ _ _ :: _ => ⟨[], by simp [takeLines], by simp only [takeLines]; exact .nil⟩
+
 theorem readEntries_sound (S Rp : List Str) : (n : Nat) → (items : List R) → (d : Fields) →
     readEntries S Rp n items = some d → EntriesOf S Rp items d
   | _, [], d, h => by simp [readEntries] at h; subst h; exact .nil
@@ -52,7 +69,20 @@ theorem readEntries_sound (S Rp : List Str) : (n : Nat) → (items : List R) →
         obtain ⟨d', hd', rfl⟩ := h
         simp only [plainB, Bool.and_eq_true, bne_iff_ne, ne_eq, Bool.not_eq_true'] at hb
         exact .line kvs k v p rest d' hp ⟨hb.1.1, hb.1.2, hb.2⟩ (readEntries_sound S Rp n rest d' hd')
-      · simp [hb] at h
+      · simp only [hb, Bool.false_eq_true, if_false] at h
+        by_cases hr : (k != s%"config" && k != s%"points" && Rp.contains k) = true
+        · simp only [hr, if_true, Option.map_eq_some_iff] at h
+          obtain ⟨d', hd', rfl⟩ := h
+          simp only [Bool.and_eq_true, bne_iff_ne, ne_eq] at hr
+          obtain ⟨run, h1, h2⟩ := takeLines_spec k rest
+          have := EntriesOf.rep (S := S) (Rp := Rp) k (.adict kvs :: run) (v :: (takeLines k rest).1) (takeLines k rest).2 d'
+            (by simp) hr.2 hr.1.1 hr.1.2 (.cons kvs v p run _ hp h2) (readEntries_sound S Rp n _ d' hd')
+          simp only [List.cons_append] at this
+          rw [← h1] at this
+          exact this
+        · have hr' : (k != s%"config" && k != s%"points" && Rp.contains k) = false := by simpa using hr
+          rw [hr'] at h
+          simp at h
   | n + 1, .cdict sub :: rest, d, h => by
     simp only [readEntries] at h
     cases ht : typeOfF sub with
